@@ -188,7 +188,10 @@ def lossmin_case(draw, tier):
         # above the accuracy of the inner projection (sqrt(1e-14))
         c["algo_eps"] = draw(st.sampled_from([1e-5, 1e-6]))
     c["constraints"] = draw(st.sampled_from([[True, True], [True, True], [True, False], [False, True]]))
-    c["max_iter"] = 300 if tier == "quick" else 1000
+    c["max_iter"] = 150 if tier == "quick" else 1000
+    # bound the total work of a pathological run (outer iterations x Dykstra sweeps per projection); runs that hit
+    # either cap are inconclusive
+    c["max_iter_proj"] = 500 if tier == "quick" else 3000
     return c
 
 
